@@ -310,7 +310,7 @@ fn reselections(nums: &[u64], lo: u64, last: u64) -> Vec<(&'static str, Vec<u64>
 /// block totals), the honest answer (the unique selection of the honest-server model, with its
 /// MMR proof) must be accepted, and every selection that differs from it in one header (with a
 /// valid MMR proof for exactly that selection) must leave the trusted view unchanged.
-fn request_grid(env: &Env, report: &mut Report, constant_difficulty: bool, last_n: u64, slice: (usize, usize), thorough: bool) {
+pub(crate) fn request_grid(env: &Env, report: &mut Report, constant_difficulty: bool, last_n: u64, slice: (usize, usize), thorough: bool, honest_only: bool) {
     use crate::protocols::light_client::{LastState, ProveRequest};
     use crate::verif::client::ClientCfg;
     use crate::verif::driver::World;
@@ -415,7 +415,7 @@ fn request_grid(env: &Env, report: &mut Report, constant_difficulty: bool, last_
                     // mutants first (they must not change anything, so the state is reused)
                     let lo = start.saturating_sub(last_n + 1).max(if start == 0 { 0 } else { 1 });
                     for (class, sel) in reselections(&honest, lo, last) {
-                        if sel == honest || sel.is_empty() {
+                        if honest_only || sel == honest || sel.is_empty() {
                             continue;
                         }
                         let mut uniq = sel.clone();
@@ -486,11 +486,18 @@ fn request_grid(env: &Env, report: &mut Report, constant_difficulty: bool, last_
                             if trusted_view(&sim) != before {
                                 report.count("request_grid/honest_accepted", 1);
                             } else if !bans.is_empty() {
-                                // an honest answer to a request the client would not build itself
-                                // (C05 judges the requests it does build)
                                 report.count("request_grid/honest_rejected", 1);
                                 let why = bans[0].1.split(':').next().unwrap_or("").to_owned();
                                 report.count(&format!("request_grid/honest_rejected/{}", why), 1);
+                                // (judged under C05 only; the zero-sample rejection is its known finding)
+                                if honest_only {
+                                    let zero_sample = bans[0].1.contains("since no sampled blocks");
+                                    report.violation(
+                                        if zero_sample { "honest-peer-banned/MalformedProtocolMessage(400)/request-grid-zero-sample/".to_owned() } else { format!("honest-peer-banned/{}/request-grid/", why) },
+                                        format!("{} honest selection {:?} rejected: {}", label, honest, bans[0].1),
+                                        json!({"grid": label, "honest": honest, "reason": bans[0].1}),
+                                    );
+                                }
                             } else {
                                 report.count("request_grid/honest_recheck_round", 1);
                             }
@@ -603,7 +610,7 @@ pub(crate) fn run(opts: &Opts, report: &mut Report) {
             let g = item - sweep_items;
             let (constant, last_n) = grid_cfgs[g / GRID_SLICES];
             let env = Env::dummy();
-            request_grid(&env, report, constant, last_n, (g % GRID_SLICES, GRID_SLICES), thorough);
+            request_grid(&env, report, constant, last_n, (g % GRID_SLICES, GRID_SLICES), thorough, false);
             return;
         }
         let chunk = item % CHUNKS;
